@@ -121,8 +121,11 @@ func runInc(p *plan.Plan, inc *plan.Incarnation) {
 		if mode == "" {
 			mode = "lite"
 		}
-		err := world.Boot(mode, &p.Knobs)
-		if err == nil {
+		var err error
+		if mode != "none" {
+			err = world.Boot(mode, &p.Knobs)
+		}
+		if err == nil && mode != "none" {
 			// start-up recovery runs in background goroutines (initSyncSegMetaForAllIds, metadata
 			// refresh): clients arrive two simulated seconds after the listener is up
 			simrt.SetOpBudget(10 * time.Minute)
